@@ -80,7 +80,7 @@ def _gen_pool(r):
     bases = []
     for _ in range(nbase):
         n = r.randint(1, 8)
-        style = r.choice(["small", "narrow", "wide", "zeros", "equal"])
+        style = r.choice(["small", "small", "narrow", "narrow", "wide", "wide", "zeros", "zeros", "equal", "equal", "frac"])
         if style == "small":
             vals = [r.randint(1, 12) for _ in range(n)]
         elif style == "narrow":
@@ -88,6 +88,8 @@ def _gen_pool(r):
             vals = [r.randint(a, 2 * a) for _ in range(n)]
         elif style == "wide":
             vals = [r.randint(1, 300) for _ in range(n)]
+        elif style == "frac":
+            vals = [r.randint(1, 40) / r.choice([2, 4, 8]) for _ in range(n)]       # exactly representable fractions
         elif style == "zeros":
             vals = [r.choice([0, 0, r.randint(1, 30)]) for _ in range(n)]
             if not any(vals):
@@ -187,7 +189,7 @@ def _gen_call(r, pool, cfg, p_fault, focus=None):
         if algo == "ilp":
             # ILP options; an unsatisfiable extra constraint is a natural failed call (ValueError)
             if r.random() < 0.35:
-                tot = sum(vals)
+                tot = int(sum(vals))
                 op["kwargs"]["constraint"] = {"kind": r.choice(["mineq", "maxle", "minge"]),
                                               "c": r.choice([0, 1, tot // max(k, 1), tot, tot + 1, -1, r.randint(0, max(1, tot))])}
             if r.random() < 0.25:
@@ -203,22 +205,26 @@ def _gen_call(r, pool, cfg, p_fault, focus=None):
     elif fam == "pack":
         algo = forced or r.choice(PACK_ALGOS)
         mx = max(vals) if vals else 1
+        imx = int(-(-mx // 1))          # ceil: the container may hold exactly representable fractions
         if r.random() < 0.12:
-            binsize = max(1, mx - r.randint(1, max(1, mx // 2))) if mx > 1 else 0.5      # an oversize item: natural refusal
+            binsize = max(1, imx - r.randint(1, max(1, imx // 2))) if mx > 1 else 0.5      # an oversize item: natural refusal
+            if binsize >= mx:
+                binsize = mx / 2
         elif c.get("binsize_hint") and r.random() < 0.75:
             binsize = c["binsize_hint"]
         else:
-            binsize = r.choice([mx, mx + 1, mx + r.randint(0, mx + 3), sum(vals) or 1, 2 * mx + 1])
+            binsize = r.choice([mx, imx + 1, imx + r.randint(0, imx + 3), sum(vals) or 1, 2 * imx + 1])
         op.update({"fn": "pack", "algo": algo, "param": binsize, "out": r.choice(OUTS)})
     elif fam == "cover":
         algo = forced or r.choice(COVER_ALGOS)
         mx = max(vals) if vals else 1
-        binsize = r.choice([max(1, mx // 2), mx, mx + r.randint(1, mx + 2), max(1, sum(vals) // 2), sum(vals) + 1])
+        imx = int(-(-mx // 1))
+        binsize = r.choice([max(1, imx // 2), mx, imx + r.randint(1, imx + 2), max(1, int(sum(vals)) // 2), sum(vals) + 1])
         op.update({"fn": "pack", "algo": algo, "param": binsize, "out": r.choice(OUTS)})
     else:
         k = r.choice([2, 2, 3, 4])
         op.update({"fn": "generator", "algo": "ckkgen", "param": k, "out": r.choice(["contents", "sums"])})
-        op["fault"] = {"kind": "abandon", "after": r.choice([0, 1, 1, 2, 3]), "how": r.choice(["close", "drop"])} if r.random() < 0.8 else None
+        op["fault"] = {"kind": "abandon", "after": r.choice([0, 1, 1, 2, 3]), "how": r.choice(["close", "drop", "throw"])} if r.random() < 0.8 else None
         return op
     # faults
     if r.random() < p_fault:
@@ -233,7 +239,11 @@ def _gen_call(r, pool, cfg, p_fault, focus=None):
             # (a late failure leaves the most work-in-progress behind)
             where = r.choices(["any", "late", "last", "first"], weights=[40, 30, 20, 10])[0]
             frac = {"any": round(r.random(), 4), "late": round(0.9 + 0.0999 * r.random(), 4), "last": 0.99999, "first": 0.0}[where]
-            op["fault"] = {"kind": "valueof", "frac": frac}
+            op["fault"] = {"kind": "valueof", "frac": frac,
+                           "exc": r.choices(["InjectedFault", "KeyError", "MemoryError", "KeyboardInterrupt"], weights=[45, 15, 10, 30])[0]}
+        elif kind == "clock" and r.random() < 0.35:
+            # the user interrupts (SIGINT) the search while it is at its c-th clock reading
+            op["fault"] = {"kind": "interrupt", "at": r.choice([1, 1, 2, 3, 5, 8, 13, 21, 40])}
         elif kind == "clock":
             op["fault"] = {"kind": "clock", "cut": r.choice([1, 1, 2, 3, 5, 8, 13, 21, 40])}
         else:
@@ -246,7 +256,7 @@ def _gen_call(r, pool, cfg, p_fault, focus=None):
             if mode in ("stub_status", "real_then_status"):
                 f["status"] = r.choice(["FEASIBLE", "NO_SOLUTION_FOUND", "ERROR", "INFEASIBLE", "UNBOUNDED", "INT_INFEASIBLE", "CUTOFF", "LOADED", "OTHER", "INF_OR_UNBD", "TRUNCATED"])
             elif mode == "raise":
-                f["exc"] = r.choice(["InterfacingError", "MemoryError", "InjectedFault"])
+                f["exc"] = r.choice(["InterfacingError", "MemoryError", "InjectedFault", "KeyboardInterrupt"])
             elif mode == "sim_timeout":
                 f["sim_duration"] = 10.0
                 f["late"] = r.choice(["FEASIBLE", "NO_SOLUTION_FOUND"])
@@ -285,7 +295,8 @@ def _gen_retry(r, pool, failed):
         vals = c["values"]
         mx = max(vals) if vals else 1
         if op["fn"] == "pack":
-            cands = [mx, mx + 1, mx + 2, mx + mx // 2 + 1, 2 * mx, 2 * mx + 1, sum(vals) or 1] + ([c["binsize_hint"]] if c.get("binsize_hint") else [])
+            imx = int(-(-mx // 1))
+            cands = [mx, imx + 1, imx + 2, imx + imx // 2 + 1, 2 * imx, 2 * imx + 1, sum(vals) or 1] + ([c["binsize_hint"]] if c.get("binsize_hint") else [])
             cands = [b for b in cands if b != op["param"]]
             op["param"] = r.choice(cands)
         elif op.get("algo") not in ("cbldm",):
@@ -371,7 +382,7 @@ class _Env:
             if c["form"] == "list":
                 obj = list(c["values"])
             elif c["form"] == "ndarray":
-                obj = np.array(c["values"], dtype=np.int64)
+                obj = np.array(c["values"], dtype=np.int64 if all(isinstance(v, int) for v in c["values"]) else np.float64)
             elif c["form"] == "dict":
                 obj = dict(zip(c["names"], c["values"]))
             else:
@@ -492,7 +503,7 @@ class _Env:
             valueof = fv
         if fault.get("kind") == "valueof":
             mapping = self.vmaps[cid] if form == "names" else (items if form == "dict" else None)
-            fv = FaultyValueOf(mapping, fail_at=None if measure else k_valueof, max_calls=2000000)
+            fv = FaultyValueOf(mapping, fail_at=None if measure else k_valueof, max_calls=2000000, exc=fault.get("exc", "InjectedFault"))
             valueof = fv
         elif fv is None and op.get("explicit_valueof"):
             # count valueof invocations (deterministic step watchdog) without changing behaviour
@@ -525,6 +536,8 @@ class _Env:
                         "minge": (lambda sums, c=con["c"]: [sums[0] >= c])}[con["kind"]]
                 if fault.get("kind") == "clock":
                     kw["time_limit"] = fault["cut"] - 0.5
+                if fault.get("kind") == "interrupt":
+                    self.clock.interrupt_at = self.clock.reads + fault["at"] - 1
                 if fault.get("kind") == "solver":
                     _solver.use({k: v for k, v in fault.items() if k != "kind"})
                 algo = self._algo(op["algo"])
@@ -549,10 +562,13 @@ class _Env:
                     outcome["ilp_signature"] = self._ilp_signature(op, val, cid)
         except StepBudgetExceeded:
             raise
-        except Exception as e:
+        except (Exception, KeyboardInterrupt) as e:
             outcome = {"exception": type(e).__name__}
         finally:
             _solver.use({"mode": "real"})
+            rec["interrupt_fired"] = self.clock.interrupts_fired
+            self.clock.interrupts_fired = 0
+            self.clock.interrupt_at = None
         rec["outcome"] = outcome
         rec["kwargs_mutated"] = [name for (name, obj, pristine) in owned_kw if obj != pristine or len(obj) != len(pristine)]
         rec["valueof_calls"] = fv.calls if fv is not None else None
@@ -588,6 +604,11 @@ class _Env:
                     break
             if fault["how"] == "close":
                 g.close()
+            elif fault["how"] == "throw":
+                try:
+                    g.throw(KeyboardInterrupt("simulated interrupt while the generator is suspended"))
+                except (KeyboardInterrupt, StopIteration):
+                    pass
             else:
                 del g
         return {"value": got}
@@ -856,7 +877,9 @@ def execute(plan, seed=0):
         # which faults actually fired
         f = op.get("fault") or {}
         if rec["valueof_fired"]:
-            res.fault("valueof_raised")
+            res.fault("valueof_raised_" + f.get("exc", "InjectedFault"))
+        if rec.get("interrupt_fired"):
+            res.fault("interrupt_at_clock_reading")
         if f.get("kind") == "clock" and "exception" in rec["outcome"]:
             res.fault("clock_cut_before_first_solution")
         elif f.get("kind") == "clock":
